@@ -24,7 +24,7 @@ LEVEL = "exploration"
 RULE = (
     "Style (27) x EOL {LF, CRLF, CR} x BOM x first-line declaration (shebang / <?xml / <?php / cabal-version / % !TEX where the style documents one) x "
     "0..6 pre-lines and 0..8 post-lines from {code, indented code, blank runs, comment lines in the file's own and in foreign styles, form-feed and "
-    "U+2028 lines, trailing-blank lines, lines holding a stray carriage return (LF / CRLF files, clearly in the minority)} x existing header {absent, single-line block, multi-line block, block whose closing delimiter is followed by code on the same line} at top or in the middle x final newline or "
+    "U+2028 lines, trailing-blank lines, code lines that merely start with the letters of a word-like marker ('REMOVE.EXE' in a batch file), lines holding a stray carriage return (LF / CRLF files, clearly in the minority)} x existing header {absent, single-line block, multi-line block, block whose closing delimiter is followed by code on the same line} at top or in the middle x final newline or "
     "not x replace / --no-replace.  Every outside line carries a unique token.  Oracle: outside lines are found byte-for-byte and in order around one "
     "inserted block; only blank lines / trailing blanks adjacent to the block may differ; BOM first, declaration first line, all EOLs as in the input, "
     "final newline kept.  Non-trivial = >= 2 outside lines and (existing header or declaration or BOM or non-LF EOL); distinct by file content + options."
@@ -54,6 +54,9 @@ def is_own_comment_line(style, line):
     if style == "lisp" and ls.startswith(";"):
         return True  # the tool takes any run of semicolons for a Lisp comment
     if single is not None and ls.startswith(single):
+        # a marker that is a word ('REM', 'dnl') has to end there: 'REMOVE.EXE' is code
+        if len(single) > 1 and single[-1].isalnum() and ls[len(single):len(single) + 1].isalnum():
+            return False
         return True
     if multi is not None and ls.startswith(multi[0]):
         return True
@@ -65,7 +68,7 @@ def lines(draw, style, n, start_k):
     out = []
     k = start_k
     for _ in range(n):
-        kind = draw(st.sampled_from(["code", "code", "indent", "blank", "blank2", "own", "foreign", "ff", "u2028", "trail", "tab", "stray-cr"]))
+        kind = draw(st.sampled_from(["code", "code", "indent", "blank", "blank2", "own", "foreign", "ff", "u2028", "trail", "tab", "stray-cr", "lookalike"]))
         k += 1
         if kind == "code":
             out.append(f"int x{k} = {k}; /* ~{k}~ */" if style not in ("c", "cpp") else f"int x{k} = {k}; ~{k}~")
@@ -83,6 +86,13 @@ def lines(draw, style, n, start_k):
             out.append(f"int y{k};\x0c ~{k}~")
         elif kind == "u2028":
             out.append(f"let s{k} = ' '; ~{k}~")
+        elif kind == "lookalike":
+            # code that merely starts with the letters of a word-like comment marker
+            single = S.STYLES[style][0]
+            if single and len(single) > 1 and single[-1].isalnum():
+                out.append(f"{single}OVE9.EXE arg ~{k}~")
+            else:
+                out.append(f"int w{k} = {k}; ~{k}~")
         elif kind == "stray-cr":
             # one carriage return inside a line (a progress-bar string, say); harmless unless the file's own line ending is CR
             out.append(f"print('working\rdone') ~{k}~")
@@ -148,8 +158,6 @@ def build(c):
     if hl and pre and (is_own_comment_line(style, pre[-1]) or (S.has_single(style) and pre[-1].lstrip() != pre[-1] and False)):
         pre.append("int sep_before; ~900~")
     if hl and post and is_own_comment_line(style, post[0]):
-        post.insert(0, "")
-    if hl and post and S.has_single(style) and not is_own_comment_line(style, post[0]) and post[0].startswith(tuple(x for x in [S.STYLES[style][0]] if x)):
         post.insert(0, "")
     if not hl and not c["no_replace"]:
         pass
